@@ -167,6 +167,35 @@ def judge_recomb_list(trace, path, counters):
     insts = [i for i in trace["instances"] if "transmission" in i and i["trios"]]
     with open(path) as fh:
         lines = [l.rstrip("\n") for l in fh][1:]
+    listed = set()
+    for l in lines:
+        f = l.split(" ")
+        listed.add((f[0], f[1], int(f[2]) - 1, int(f[3]) - 1))
+    # completeness: the list is how the transmission is reported to the user. Wherever the solver's transmission value of a child
+    # changes between two consecutive variants of one phase set, an event must be listed - except between the first two variants
+    # of a set, which whatshap never reports (find_recombination starts at the third variant; recorded in DESIGN 8.5 as an
+    # observation, the statement does not settle it)
+    last = {}
+    for i in insts:
+        last[(i["chromosome"], tuple(i["family"]))] = i
+    for i in last.values():
+        comps = i.get("components") or {}
+        pos = i["positions"]
+        if not comps or len(i["transmission"]) != len(pos):
+            continue
+        blocks = {}
+        for q in pos:
+            if comps.get(q) is not None:
+                blocks.setdefault(comps[q], []).append(q)
+        for tri, t in enumerate(i["trios"]):
+            for blk in blocks.values():
+                for j in range(2, len(blk)):
+                    ta = (i["transmission"][pos.index(blk[j - 1])] // (4**tri)) % 4
+                    tb = (i["transmission"][pos.index(blk[j])] // (4**tri)) % 4
+                    counters["recomb_list_adjacent_pairs_checked"] = counters.get("recomb_list_adjacent_pairs_checked", 0) + 1
+                    if ta != tb and (t[2], i["chromosome"], blk[j - 1], blk[j]) not in listed:
+                        viol.append({"mech": "recomb-list-misses-transmission-change", "msg": "child %s %s: the solver's transmission value changes %d -> %d between %d and %d (consecutive variants of phase set %d, not its first pair), no such line in the recombination list"
+                                     % (t[2], i["chromosome"], ta, tb, blk[j - 1] + 1, blk[j] + 1, min(blk) + 1)})
     for l in lines:
         f = l.split(" ")
         child, chrom, p1, p2 = f[0], f[1], int(f[2]) - 1, int(f[3]) - 1
